@@ -398,6 +398,9 @@ defs! {
     a2_wr_maybe, full; a: wr(CBTree), m: mrd(CNull);
     a2_ent_mwr, full; e: ent, m: mwr(CFlagVec);
     a2_drain_ent, once; d: drain(CDense), e: ent;
+    a2_drain_bits, once; d: drain(CHash), x: bits(b0);
+    a3_drain_rd, once; e: ent, d: drain(CBTree), a: rd(CVec);
+    a3_drain_not, once; d: drain(CVec2), n: not(CDense), x: bor(b1, b2);
     a2_csv_rd, once; c: csv(cs2), a: rd(CVec2);
     a2_rwr_ent, once; r: rwr(CFlagDense), e: ent;
     a2_deref_wr, lend; e: ent, a: wr(CDerefVec);
